@@ -209,7 +209,20 @@ def shared_typevar_checks(out):
 
         class Sub(G[int]):
             extra: Box = None
+
+        class Nest(pane.PaneBase, t.Generic[T]):
+            g: G[T]
+            gs: t.List[G[T]] = pane.field(default_factory=list)
+            deep: t.Optional[G[t.List[T]]] = None
+            pair: t.Optional[G2[T, int]] = None
+
+        class NestSub(Nest[str]):
+            pass
         return [
+            ('Nest[int] with fields typed G[T], List[G[T]], G[List[T]], G2[T, int]', lambda: Nest[int], {'g': G[int], 'gs': t.List[G[int]], 'deep': t.Optional[G[t.List[int]]], 'pair': t.Optional[G2[int, int]]},
+             {'g': {'x': 1}, 'gs': [{'x': 2}], 'deep': {'x': [3]}, 'pair': {'x': 4, 'y': 5}},
+             [{'g': {'x': 's'}}, {'g': {'x': 1}, 'gs': [{'x': 's'}]}, {'g': {'x': 1}, 'deep': {'x': ['s']}}, {'g': {'x': 1}, 'pair': {'x': 's', 'y': 1}}]),
+            ('NestSub(Nest[str])', lambda: NestSub, {'g': G[str], 'gs': t.List[G[str]]}, {'g': {'x': 's'}, 'gs': [{'x': 't'}]}, [{'g': {'x': 1}}, {'g': {'x': 's'}, 'gs': [{'x': 1}]}]),
             ('C1(G[int], Generic[T]) z: T', lambda: C1, {'x': int, 'z': T}, None, None),
             ('C1[str]', lambda: C1[str], {'x': int, 'z': str}, {'x': 1, 'z': 's'}, [{'x': 1, 'z': 2}, {'x': 's', 'z': 's'}]),
             ('H(G[List[T]], Generic[T])[int]', lambda: H[int], {'x': t.List[int], 'y': int}, {'x': [1], 'y': 2}, [{'x': [[1]], 'y': 2}, {'x': [1], 'y': [2]}, {'x': 1, 'y': 2}]),
